@@ -36,11 +36,30 @@ theorem toI32_small (n : Nat) (h : n < 2147483648) : toI32 n = (n : Int) := by
   · rfl
   · omega
 
-theorem inbound_iff (d : Dynar) (hinv : Inv d) (idx : Int) :
-    inbound d idx = true ↔ 0 ≤ idx ∧ idx < (d.used : Int) := by
+theorem inbound_iff (d : Dynar) (idx : Nat) : inbound d idx = true ↔ idx < d.used := by
   unfold inbound
-  rw [toI32_small d.used hinv.2.1]
   simp
+
+/-- `xbt_dynar_remove_at` refuses (assertion) every index outside `0 … used-1`, whatever its value -/
+theorem removeAt_refused (d : Dynar) (idx : Int) (h : idx < 0 ∨ (d.used : Int) ≤ idx) :
+    removeAt d idx = (.abort, d) := by
+  unfold removeAt
+  by_cases hneg : idx < 0
+  · simp only [hneg, if_true]
+  · have : inbound d idx.toNat = false := by
+      cases hb : inbound d idx.toNat with
+      | false => rfl
+      | true => have := (inbound_iff d _).mp hb; omega
+    simp only [hneg, if_false, this, Bool.not_false, if_true]
+
+/-- `xbt_dynar_insert_at` refuses (assertion) every index outside `0 … used`, whatever its value -/
+theorem insertAt_refused (d : Dynar) (idx : Int) (x : Elem) (h : idx < 0 ∨ (d.used : Int) < idx) :
+    insertAt d idx x = (.abort, d) := by
+  unfold insertAt
+  by_cases hneg : idx < 0
+  · simp only [hneg, if_true]
+  · have : idx.toNat > d.used := by omega
+    simp only [hneg, if_false, this, if_true]
 
 /-- the insertion (expand, shift right, store) is `List.insertIdx` on the abstraction, for `0 ≤ idx ≤ used` -/
 theorem insertAt_refines (d : Dynar) (hinv : Inv d) (idx : Int) (x : Elem) (h0 : 0 ≤ idx) (h1 : idx ≤ d.used)
@@ -49,10 +68,11 @@ theorem insertAt_refines (d : Dynar) (hinv : Inv d) (idx : Int) (x : Elem) (h0 :
   obtain ⟨hsz, hlt, hinit⟩ := hinv
   have hneg : ¬ idx < 0 := by omega
   have hi : idx.toNat ≤ d.used := by omega
+  have hi' : ¬ idx.toNat > d.used := by omega
   have hsize := expand_size d (d.used + 1)
   have hisz : idx.toNat < (expand d (d.used + 1)).size := by omega
   unfold insertAt
-  simp only [hneg, if_false, hisz, if_true, expand_mem]
+  simp only [hneg, if_false, hi', hisz, if_true, expand_mem]
   refine ⟨trivial, ?_, ?_⟩
   · apply List.ext_getElem
     · simp [abs, List.length_insertIdx, hi]
@@ -95,7 +115,8 @@ theorem insertAt_refines (d : Dynar) (hinv : Inv d) (idx : Int) (x : Elem) (h0 :
 theorem removeAt_refines (d : Dynar) (hinv : Inv d) (i : Nat) (hi : i < d.used) :
     ∃ v, (abs d)[i]? = some v ∧ (removeAt d (i : Int)).1 = .val v ∧
       abs (removeAt d (i : Int)).2 = (abs d).eraseIdx i ∧ Inv (removeAt d (i : Int)).2 := by
-  have hin : inbound d (i : Int) = true := (inbound_iff d hinv i).mpr ⟨by omega, by omega⟩
+  have hin : inbound d i = true := (inbound_iff d i).mpr hi
+  have hneg : ¬ (i : Int) < 0 := by omega
   obtain ⟨hsz, hlt, hinit⟩ := hinv
   have hsome := hinit i hi
   obtain ⟨v, hv⟩ := Option.isSome_iff_exists.mp hsome
@@ -103,7 +124,7 @@ theorem removeAt_refines (d : Dynar) (hinv : Inv d) (i : Nat) (hi : i < d.used) 
   · have : i < (abs d).length := by rw [abs_length]; exact hi
     rw [List.getElem?_eq_getElem this, abs_getElem, hv]; rfl
   · unfold removeAt
-    simp only [hin, Bool.not_true, Bool.false_eq_true, if_false, Int.toNat_natCast, hv]
+    simp only [hneg, Int.toNat_natCast, hin, Bool.not_true, Bool.false_eq_true, if_false, hv]
     refine ⟨trivial, ?_, ?_⟩
     · apply List.ext_getElem
       · simp [abs, List.length_eraseIdx, hi]
